@@ -91,6 +91,7 @@ func bufferCycle(c *eng.Ctx, fn *ssa.Function, fieldKey string, emit eng.Matcher
 
 func runC10(c *eng.Ctx) {
 	p := c.P
+	c.Rule("ORDER", "index.metricMetaDatabase.Flush{counters<dictionaries}", func() { metaFlushCountersFirst(c) }) // C10-m21: shared with C09/C07
 	lookupMissIsFinalOnlyOnCurrentSnapshot(c)
 	cachedBucketIsNotRecycled(c)
 	forwardEntryIsFresh(c)
